@@ -9,9 +9,14 @@ PKG = "network/transport/v2"
 HARNESS = ["network/transport/v2/zz_verif_c07_test.go", "network/transport/v2/zz_verif_c07_gen_test.go",
            "network/transport/v2/zz_verif_c15_test.go", "network/transport/v2/gossip/zz_verif_export_c07.go"]
 
+PKG2 = "network"
+HARNESS2 = ["network/zz_verif_c15_test.go", "network/transport/grpc/zz_verif_export_c15.go"]
+HARNESSES = [(PKG, HARNESS, "c15"), (PKG2, HARNESS2, "c15cfg")]
+
 REQUIRED = ["payload_only_in_payload_msg", "private_payload_release_sound", "decrypt_iff_member", "payload_stored_only_if_hash_matches", "payload_with_transaction_only_if_hash_matches",
             "authn_sound", "tick_and_create_send_no_payload", "nonmember_cipher_gap",
-            "fact_payload_query_checks", "fact_payload_finished_nil_guard", "fact_collect_guard", "fact_payload_store_checks", "fact_payload_writers", "fact_authenticate_steps"]
+            "fact_payload_query_checks", "fact_payload_finished_nil_guard", "fact_collect_guard", "fact_payload_store_checks", "fact_payload_writers", "fact_authenticate_steps",
+            "fact_authenticator_selection", "dummy_authenticator_only_without_tls", "configured_authn_sound"]
 
 
 def run(ctx):
@@ -137,6 +142,41 @@ def run(ctx):
                 ctx.violation(sig, f"tlsAuthenticator case {j.get('case')}: {got} but certificate/endpoint facts are {l[:300]}", "authn.jsonl", l)
     ctx.oblige("oracle:authenticated-iff-certificate-covers-resolved-endpoint-host(impl)", a_bad == 0, f"{a_bad} cases")
 
+    # ---- oracle 4: the REAL Network.Configure, four combinations TLS x strict mode: with TLS configured a peer claiming a DID whose
+    # NutsComm host its certificate does not cover must be refused (strict or not); without TLS strict mode must refuse to start
+    c_bad = 0
+    cfg_lines = 0
+    if not ctx.replay or '"op":"configure"' in open(ctx.replay).read(4096):
+        b2 = ctx.go_test_binary(PKG2, HARNESS2, "c15cfg")
+        if b2 is None:
+            ctx.oblige("harness-builds:network.Configure", False, ctx.harness_error[-1200:])
+        else:
+            out2 = os.path.join(ctx.scratch, "out-cfg")
+            rc2, log2, out2 = ctx.run_harness(b2, "TestVerifC15Configure", {}, outdir=out2, timeout=600, cwd=os.path.join(os.environ.get("VERIF_REPO", "/repo"), "network"))
+            ctx.oblige("harness-runs:network.Configure", rc2 == 0, log2[-1200:])
+            if rc2 == 0:
+                o2, i2, m2 = (os.path.join(out2, x) for x in ("ops.jsonl", "impl.out", "model.out"))
+                okm, errm = ctx.model("C15", o2, m2)
+                impl2, model2, bad2 = ctx.compare(i2, m2)
+                ops2 = ctx.read_lines(o2)
+                cfg_lines = len(impl2)
+                for k, l in enumerate(impl2):
+                    j = json.loads(ops2[k])
+                    wrong = None
+                    if j["tls"] and ("liar-refused=true" not in l or "liar-auth=false" not in l):
+                        wrong = ("C15:unverified-node-did-accepted-with-tls", "TLS is configured but a peer whose certificate does not cover the NutsComm host of the DID it claims is marked authenticated")
+                    elif (not j["tls"]) and j["strict"] and not l.startswith("configure err:tls-disabled-strict"):
+                        wrong = ("C15:strict-mode-starts-without-tls", "strict mode accepted a configuration without TLS")
+                    if wrong:
+                        c_bad += 1
+                        if c_bad == 1:
+                            ctx.violation(wrong[0], f"{wrong[1]}: Network.Configure({ops2[k]}) -> {l}", "configure.jsonl", ops2[k])
+                ctx.oblige("oracle:tls-configured-implies-node-did-verified(impl, real Network.Configure)", c_bad == 0, f"{c_bad} of {len(impl2)} configurations")
+                if bad2 and c_bad == 0:
+                    ctx.oblige("correspondence:model=impl(Network.Configure)", False, f"line {bad2[0]}: impl {impl2[bad2[0]] if bad2[0] < len(impl2) else None} model {model2[bad2[0]] if bad2[0] < len(model2) else None}")
+                else:
+                    ctx.oblige("correspondence:model=impl(Network.Configure)", not bad2, f"{len(impl2)} lines")
+
     # ---- correspondence
     if bad:
         i = bad[0]
@@ -157,7 +197,7 @@ def run(ctx):
         j = json.loads(l)
         opk[j["op"] + (":" + j["msg"]["t"] if j["op"] == "inject" else "")] += 1
     rets = Counter(re.match(r"ret=(\S+)", l).group(1) for l in impl if l.startswith("ret="))
-    ctx.cov["evaluations"] = len(steps)
+    ctx.cov["evaluations"] = len(steps) + cfg_lines
     ctx.cov["distinct_nontrivial"] = len({(lk["scenario"], lk["tx"], lk["dst"]) for lk in leaks}) + len({(c["scenario"], c["node"], c["tx"], c["data"]) for c in stores})
     ctx.cov["traces_validated_against_impl"] = len(impl) - len(bad)
     ctx.cov["rule"] = ("holder node in 8 key situations (listed A / listed B / unlisted C able to decrypt an irregular header / no node DID / key missing / DID "
@@ -171,7 +211,8 @@ def run(ctx):
                                      "envelopes_carrying_private_bytes": {" ".join(k): v for k, v in leak_kinds.items()},
                                      "gap_releases(holder can decrypt but is not listed)": dict(gaps),
                                      "store_probes": {" ".join(k): v for k, v in sk.items()},
-                                     "authn_outcomes": dict(Counter(l.split()[1] for l in impl if l.startswith("authn ")))}
+                                     "authn_outcomes": dict(Counter(l.split()[1] for l in impl if l.startswith("authn "))),
+                                     "network_configure_cases(tls x strict x nodeDID)": cfg_lines}
     ctx.cov["samples"] = [steps[60][:300] if len(steps) > 60 else "", next((l for l in impl if "pl(" in l), "")[:300]]
     if gaps:
         ctx.notes.append(f"gap exercised (not a violation): holder able to decrypt without being listed released the payload to listed peers: {dict(gaps)}")
